@@ -6,7 +6,8 @@ PROP = dict(
     lean_modules=["Comdex.Props.C02"],
     namespaces=["Comdex.C02"],
     required_theorems=["Comdex.C02.supply_eq_principal", "Comdex.C02.supply_le_principal", "Comdex.C02.supply_moves_with_principal",
-                       "Comdex.C02.mint_delivers_create", "Comdex.C02.mint_delivers_draw", "Comdex.C02.mint_delivers_stable"],
+                       "Comdex.C02.mint_delivers_create", "Comdex.C02.mint_delivers_draw", "Comdex.C02.mint_delivers_stable",
+                       "Comdex.C02.esmVault_registers_principal", "Comdex.C02.esmBurn_burns_registered"],
     harness_tests=["TestC01"],
     monitors=["supply_eq_principal", "mint_delivers"],
     trusted_base=[KERNEL_TB, HARNESS_TB, DEC_TB, VAULT_TB],
@@ -24,6 +25,6 @@ META = dict(
          "with exactly the new principal less floor(principal*fee) and the collector with the fee. Tied to the code by the C01 correspondence run; "
          "supply and delivery monitors are evaluated on real balances.",
     note="The inequality supply <= principal is proved for every history incl. liquidation seizures and auction settlements (the burn at "
-         "settlement is modelled); equality for histories without settlement. Partial: emergency redemption (x/esm) is outside the model. "
+         "settlement is modelled); equality for histories without settlement. Emergency redemption (x/esm) is modelled: redeeming a vault moves exactly its principal to the register without touching the supply, a holder's redemption burns exactly what it takes off the register and never more than is registered (the register is compared with the chain's AssetToAmount on every state line). "
          "Trusted: Lean kernel, model faithfulness via correspondence, message atomicity.",
 )
